@@ -147,6 +147,10 @@ def extra_programs():
                                                                                                     "    with cohdl.always:", "        self.q <<= v"]), "reject"))
     out.append(("x|always-with-block-writes-own-target", _x_entity([], ["@std.sequential(std.Clock(self.clk))", "def w():", "    nonlocal sig", "    sig[3:2] <<= self.src[3:2]",
                                                                    "    with cohdl.always:", "        sig[1:0] <<= self.pin[1:0]", "    self.q <<= sig"]), "reject"))
+    out.append(("x|always-drives-port-with-default-next-to-reset", _x_entity([], ["@std.sequential(std.Clock(self.clk), std.Reset(self.src[0]))", "def w():", "    nonlocal sig", "    sig <<= self.src",
+                                                                            "    with cohdl.always:", "        self.q <<= ~self.pin"]), "accept"))
+    out.append(("x|always-pushes-port-with-default", _x_entity([], ["@std.sequential(std.Clock(self.clk))", "def w():", "    nonlocal sig", "    sig <<= self.src",
+                                                                "    with cohdl.always:", "        self.q <<= self.pin"]), "accept"))
     out.append(("x|always-reads-signal-written-in-body", _x_entity([], ["@std.sequential(std.Clock(self.clk))", "def w():", "    nonlocal sig", "    sig <<= self.src",
                                                                    "    self.q <<= cohdl.always(sig & self.pin)"]), "accept"))
     # two outputs of one instance
